@@ -58,7 +58,7 @@ def perform(ctx, binary, scs, tag="c03"):
                                 "saved": r["streams_saved_at_kill"] or [], "killed": bool(r["killed"]), "died": died,
                                 "exit": (r["exit2"] + " " + r["stderr"][-300:]) if died else "",
                                 "truncate": bool(by_run[r["run"]]["truncate"])}) + "\n")
-            shapes.add(json.dumps([by_run[r["run"]]["streams"], [h for h in by_run[r["run"]]["hist"] if h[0] in ("kill", "commit", "deliver", "truncate")],
+            shapes.add(json.dumps([by_run[r["run"]]["streams"], [h for h in by_run[r["run"]]["hist"] if h[0] in ("kill", "stop", "commit", "deliver", "truncate")],
                                    by_run[r["run"]]["rotate_at"]]))
     mon = ctx.tlc("FileInputMon", "FileInputMon.cfg", workers=1, files={trace: "trace.ndjson"}, timeout=600, deadlock=False,
                   name="FileInputMon/trace")
@@ -100,7 +100,7 @@ def commit_order_stage(ctx):
         if res.rc == -9 or res.violated is not None:
             raise vlib.Infra("simulation of FileInput.tla failed:\n%s" % res.out[-2000:])
         for p in res.printed:
-            if not (isinstance(p, dict) and "hist" in p) or not any(h[0] == "kill" for h in p["hist"]) or len(set(p["streams"])) < 2:
+            if not (isinstance(p, dict) and "hist" in p) or not any(h[0] in ("kill", "stop") for h in p["hist"]) or len(set(p["streams"])) < 2:
                 continue
             scs.append(scen(k, "sim-%d" % k, p["streams"], p["hist"], bool(p["sync"])))
             k += 1
@@ -128,6 +128,11 @@ def run(ctx):
                           timeout=1200, deadlock=False, name="FileInput/residual sync=%s" % sync)
         ctx.tlc_expect_ok("FileInput", "FileInput_base.cfg", overrides={"D_SeekMinSaved": "FALSE", "NLines": n, "SyncMode": sync},
                           timeout=1200, deadlock=False, name="FileInput/repaired-rule sync=%s" % sync)
+    # graceful stop: the input writes its offsets once more; without that write an asynchronous save interval of commits is missing
+    ms = ctx.tlc("FileInput", "FileInput_base.cfg", overrides={"ResidualOnly": "TRUE", "SyncMode": "FALSE", "M_StopSaves": "FALSE"}, timeout=600,
+                 deadlock=False, name="FileInput/mutant-M_StopSaves")
+    if ms.ok or ms.violated != "CleanStopSavesAll":
+        raise vlib.Infra("spec mutant M_StopSaves is not rejected by CleanStopSavesAll (violated=%s)" % ms.violated)
     # discovery of files under rotation, and truncation detection next to a concurrent reader/writer (the code as repaired:
     # D22, D21; the old behaviours are the mutants, which TLC must reject)
     ctx.tlc_expect_ok("FileDiscovery", "FileDiscovery_ok.cfg", timeout=600, deadlock=False, name="FileDiscovery/faithful")
@@ -163,7 +168,7 @@ def run(ctx):
         for p in res.printed:
             if not (isinstance(p, dict) and "hist" in p):
                 continue
-            if not any(h[0] == "kill" for h in p["hist"]):
+            if not any(h[0] in ("kill", "stop") for h in p["hist"]):
                 continue
             rot = ctx.rng.choice([0, 0, 2, 3, 4]) if len(p["streams"]) >= 3 else 0
             scs.append(scen(k, "sim-%d" % k, p["streams"], p["hist"], bool(p["sync"]), rotate_at=rot))
@@ -269,6 +274,20 @@ def run(ctx):
         hist += [["save", 0], ["kill", 0], ["restart", 0], ["open", 0]]
         scs.append(scen(k, "compressed-%d" % k, ["a"] * n, hist, True, lz4=True))
         k += 1
+    # graceful stop right after the last observed commit (async persistence: the stop's own save is what puts it on disk),
+    # restart: nothing is lost, and the offsets file held every observed commit (CleanStopSavesAll, reported as drift)
+    for i in range(8 if thorough else 3):
+        n = ctx.rng.randint(3, 6)
+        kk = ctx.rng.randint(1, n - 1)
+        streams = [ctx.rng.choice(["a", "a", "b"]) for _ in range(n)]
+        hist = []
+        for j in range(1, n + 1):
+            hist += [["append", j]]
+        for j in range(1, kk + 1):
+            hist += [["act", j], ["deliver", j], ["commit", j]]
+        hist += [["stop", 0], ["restart", 0], ["open", 0]]
+        scs.append(scen(k, "graceful-stop-%d" % k, streams, hist, False))
+        k += 1
     # truncated in place and rewritten SHORTER than the saved offsets while file.d is down: the file must be started over
     for i in range(4 if thorough else 2):
         n1 = ctx.rng.randint(4, 6)
@@ -293,6 +312,13 @@ def run(ctx):
     ctx.traces_validated = len(results)
     ctx.nontrivial = shapes
     ctx.extra["kill_restart_cycles"] = sum(1 for r in results if r["killed"])
+    ctx.extra["graceful_stop_cycles"] = sum(1 for r in results if r.get("exit1") == "stopped")
+    ctx.extra["graceful_stop_commits_checked_against_offsets_file"] = sum(r.get("stop_checked", 0) for r in results)
+    unsaved = [(r["run"], r["stop_unsaved"]) for r in results if r.get("stop_unsaved")]
+    if unsaved:
+        # CleanStopSavesAll is a statement of the specification beyond the listed property (re-delivery, not loss): reported as drift
+        ctx.drift += len(unsaved)
+        vlib.log("MODEL-DRIFT: graceful stop left observed commits out of the offsets file (CleanStopSavesAll): %s" % unsaved[:5])
     ctx.extra["steps_the_real_code_could_not_follow"] = sum(r["diverged"] for r in results)
     ctx.rule = ("history = (stream of each line, appends, gate releases, commits/saves, SIGKILL instant, restart, optional rotation "
                 "by rename, or a truncation); distinct = distinct (streams, kill/commit/deliver/truncate skeleton, rotation point)")
